@@ -31,6 +31,8 @@ type c04Case struct {
 	Mut    int   `json:"mutation"`
 	Param  int   `json:"param"`
 	Stale  bool  `json:"tx_carries_signer_side_prevout"`
+	// Hi: numeric mutations change the most significant byte of the field instead of the least
+	Hi bool `json:"mutate_top_byte,omitempty"`
 }
 
 // mutation classes
@@ -94,13 +96,17 @@ func cloneRef(t *txref.Tx) *txref.Tx {
 
 // applyMut mutates t; returns the new position of the signed input, or -1 when
 // the mutation does not apply to this shape.
-func c04Mutate(t *txref.Tx, pos, mut, param int) int {
+func c04Mutate(t *txref.Tx, pos, mut, param int, hi ...bool) int {
+	d32, d64 := uint32(1), uint64(1)
+	if len(hi) > 0 && hi[0] {
+		d32, d64 = 0x80000000, 1<<62
+	}
 	switch mut {
 	case mNone:
 	case mVersion:
-		t.Version++
+		t.Version ^= d32
 	case mLockTime:
-		t.LockTime++
+		t.LockTime ^= d32
 	case mInTxID, mInVout, mInSeq:
 		if param >= len(t.Ins) {
 			return -1
@@ -109,9 +115,9 @@ func c04Mutate(t *txref.Tx, pos, mut, param int) int {
 		case mInTxID:
 			t.Ins[param].TxID[5] ^= 0x40
 		case mInVout:
-			t.Ins[param].Vout++
+			t.Ins[param].Vout ^= d32
 		case mInSeq:
-			t.Ins[param].Seq ^= 1
+			t.Ins[param].Seq ^= d32
 		}
 	case mInUnlocking, mInPrevSats:
 		if param >= len(t.Ins) || param == pos {
@@ -120,7 +126,7 @@ func c04Mutate(t *txref.Tx, pos, mut, param int) int {
 		if mut == mInUnlocking {
 			t.Ins[param].Script = []byte{0x51, 0x52}
 		} else {
-			t.Ins[param].PrevSats += 5
+			t.Ins[param].PrevSats ^= d64 << 2
 		}
 	case mOutValue, mOutScript, mOutRemove:
 		if param >= len(t.Outs) {
@@ -128,7 +134,7 @@ func c04Mutate(t *txref.Tx, pos, mut, param int) int {
 		}
 		switch mut {
 		case mOutValue:
-			t.Outs[param].Sats++
+			t.Outs[param].Sats ^= d64
 		case mOutScript:
 			t.Outs[param].Script[4] ^= 1
 		case mOutRemove:
@@ -161,7 +167,7 @@ func c04Mutate(t *txref.Tx, pos, mut, param int) int {
 		if param != 0 {
 			return -1
 		}
-		t.Ins[pos].PrevSats++
+		t.Ins[pos].PrevSats ^= d64
 	case mSpentScript:
 		if param == 0 {
 			t.Ins[pos].PrevScript[10] ^= 1 // inside the key hash
@@ -250,7 +256,7 @@ func c04Check(c c04Case) (fs []rep.Finding) {
 		alg = "forkid"
 	}
 	ref1 := cloneRef(ref0)
-	pos1 := c04Mutate(ref1, c.Pos, c.Mut, c.Param)
+	pos1 := c04Mutate(ref1, c.Pos, c.Mut, c.Param, c.Hi)
 	if pos1 < 0 {
 		return nil
 	}
@@ -367,7 +373,7 @@ func c04Resign(c c04Case, priv *bec.PrivateKey, lock []byte) (fs []rep.Finding) 
 
 func init() {
 	p := register(&Prop{ID: "C04", Level: "exploration",
-		Rule: "exhaustive product: 4 (quick) / 8 (thorough) private keys (incl. 1 and n-1) x shapes nIn 1..3 x nOut 0..3 x every signed position x spent script {P2PKH, P2PKH inscription, inscription with an OP_RETURN trailer pushing 1,2,3,4,75,76 bytes} x the 6 FORKID hash types verified with the FORKID flag and the 6 legacy types verified without it x EVERY single-field mutation class at every position (version, locktime, each input's txid/vout/sequence, another input's unlocking script / spent value, each output's value/script, output insertion at every gap / removal, input insertion at every gap / removal, adjacent swaps, spent value, spent script; the spent-output mutations also with the transaction object still carrying the signer-side record of the spent output). The input is signed through Tx.FillInput + unlocker.Simple and verified with interpreter.Execute(WithTx, WithAfterGenesis[, WithForkID]). plus sign -> in-place edit of the same Tx object -> sign again -> verify sequences (10 edit kinds). Oracle: unmutated accepted; re-signed accepted; mutated accepted iff the reference digest (certified on the node vectors) of the mutated context equals the original digest. distinct_nontrivial = distinct (shape, position, hash type, mutation) verifications",
+		Rule: "exhaustive product: 4 (quick) / 8 (thorough) private keys (incl. 1 and n-1) x shapes nIn 1..3 x nOut 0..3 x every signed position x spent script {P2PKH, P2PKH inscription, inscription with an OP_RETURN trailer pushing 1,2,3,4,75,76 bytes} x the 6 FORKID hash types verified with the FORKID flag and the 6 legacy types verified without it x EVERY single-field mutation class at every position, numeric fields changed in their lowest and in their highest byte (version, locktime, each input's txid/vout/sequence, another input's unlocking script / spent value, each output's value/script, output insertion at every gap / removal, input insertion at every gap / removal, adjacent swaps, spent value, spent script; the spent-output mutations also with the transaction object still carrying the signer-side record of the spent output). The input is signed through Tx.FillInput + unlocker.Simple and verified with interpreter.Execute(WithTx, WithAfterGenesis[, WithForkID]). plus sign -> in-place edit of the same Tx object -> sign again -> verify sequences (10 edit kinds). Oracle: unmutated accepted; re-signed accepted; mutated accepted iff the reference digest (certified on the node vectors) of the mutated context equals the original digest. distinct_nontrivial = distinct (shape, position, hash type, mutation) verifications",
 	})
 	sp := NewSpace(p, "sign-mutate-verify", c04Check)
 	p.Run = func(r *rep.Run, thorough bool) {
@@ -403,6 +409,9 @@ func init() {
 											yield(c04Case{Key: k, NIn: nin, NOut: nout, Pos: pos, Insc: insc, HT: ht, Mut: m, Param: prm})
 											if m == mNone || m == mSpentValue || m == mSpentScript || m == mOutValue {
 												yield(c04Case{Key: k, NIn: nin, NOut: nout, Pos: pos, Insc: insc, HT: ht, Mut: m, Param: prm, Stale: true})
+											}
+											if m == mVersion || m == mLockTime || m == mInVout || m == mInSeq || m == mInPrevSats || m == mOutValue || m == mSpentValue {
+												yield(c04Case{Key: k, NIn: nin, NOut: nout, Pos: pos, Insc: insc, HT: ht, Mut: m, Param: prm, Hi: true})
 											}
 											if k < 2 && prm <= 2 {
 												yield(c04Case{Key: k, NIn: nin, NOut: nout, Pos: pos, Insc: insc, HT: ht, Mut: m, Param: prm, Resign: true})
